@@ -20,7 +20,7 @@ fn ev_dt(e: &Ev) -> i64 {
         Ev::P(d, _) | Ev::N(d) | Ev::Er(d, _) => *d,
     }
 }
-fn show(h: &[Ev]) -> String {
+pub fn show(h: &[Ev]) -> String {
     h.iter()
         .map(|e| match e {
             Ev::P(d, v) => format!("P(+{}ns,{:?})", d, v),
@@ -33,7 +33,7 @@ fn show(h: &[Ev]) -> String {
 
 pub const KINDS: [&str; 5] = ["integral", "derivative", "acceleration_to_state", "velocity_to_state", "position_to_state"];
 
-fn natural_unit(kind: usize) -> Unit {
+pub fn natural_unit(kind: usize) -> Unit {
     match kind {
         2 => MILLIMETER_PER_SECOND_SQUARED,
         3 => MILLIMETER_PER_SECOND,
@@ -81,7 +81,7 @@ fn make(kind: usize) -> Box<dyn Subj> {
     }
 }
 
-fn run_real(kind: usize, h: &[Ev], t0: i64, unit: Unit) -> Vec<(u32, Obs)> {
+pub fn run_real(kind: usize, h: &[Ev], t0: i64, unit: Unit) -> Vec<(u32, Obs)> {
     let mut s = make(kind);
     let mut t = t0;
     let mut out = Vec::with_capacity(h.len());
@@ -322,7 +322,7 @@ pub fn check_history(kind: usize, h: &[Ev], unit: Unit, e: &mut Eng, meta: bool)
     applied
 }
 
-fn exact_syms() -> Vec<Ev> {
+pub fn exact_syms() -> Vec<Ev> {
     let mut v = Vec::new();
     for dt in [S / 4, S / 2, S, 2 * S] {
         for x in [0.0f32, 1.0, -2.0, 3.0] {
@@ -333,7 +333,7 @@ fn exact_syms() -> Vec<Ev> {
     v.push(Ev::Er(S, 1));
     v
 }
-fn broad_syms() -> Vec<Ev> {
+pub fn broad_syms() -> Vec<Ev> {
     let mut v = Vec::new();
     for dt in [1_000i64, 1_000_000, 300_000_000, 3600 * S] {
         for x in [0.1f32, -7.3, 1000.0] {
